@@ -39,6 +39,9 @@ theorem Exclusive.of_flag {X : Phase} {s : State} (h : Exclusive s) (hx : X.flag
 
 theorem SameExcept.refl (X : Phase) (s : State) : SameExcept X s s := fun _ _ => rfl
 
+theorem SameExcept.trans {X : Phase} {s s' s'' : State} (h1 : SameExcept X s s') (h2 : SameExcept X s' s'') :
+    SameExcept X s s'' := fun Y hne => (h2 Y hne).trans (h1 Y hne)
+
 theorem SameExcept.all {X : Phase} {s s' : State} (h : ∀ Y : Phase, Y.flag s' = Y.flag s) :
     SameExcept X s s' := fun Y _ => h Y
 
@@ -309,6 +312,12 @@ theorem phase_opPostBlind (m : M) (h : PhaseInv cfg m) (i : Option Nat) (rest : 
         · intro g hg; cases hg; exact hpre.same (by same_flags)
 
 /-! ### dealing -/
+theorem dealSetup_same (s : State) (st : Street) : SameExcept .deal s (dealSetup cfg env s st) := by
+  intro Y hne
+  unfold dealSetup
+  simp only []
+  split <;> (cases Y <;> first | rfl | exact absurd rfl hne)
+
 theorem phase_beginDeal (m : M) (h : PhaseInv cfg m) (rest : List Ctl)
     (hctl : m.ctl = .beginDeal :: rest) : PhaseInv cfg (step cfg env m) := by
   have hpre : AllClear m.st := h.head _ _ hctl
@@ -317,11 +326,11 @@ theorem phase_beginDeal (m : M) (h : PhaseInv cfg m) (rest : List Ctl)
   all_goals first
     | exact h.raise _
     | (refine h.cont hctl _ _ ?_ (by simp) ?_
-       · refine (hpre.same (X := .deal) ?_).excl
+       · refine (OnlyMaybe.same (hpre.same (X := .deal) ?_) (dealSetup_same _ _)).excl
          intro Y hne
          cases Y <;> first | rfl | exact absurd rfl hne
        · intro g hg; cases hg
-         refine hpre.same (X := .deal) ?_
+         refine OnlyMaybe.same (hpre.same (X := .deal) ?_) (dealSetup_same _ _)
          intro Y hne
          cases Y <;> first | rfl | exact absurd rfl hne)
 
